@@ -181,7 +181,7 @@ func VHarness_C17_TransferAbort() {
 // un-pauses a waiting remote and triggers replication when it lags; a rejected
 // replication strictly lowers next unless the rejection is stale; a snapshot
 // status report moves a remote out of the snapshot state.
-// vcheck: reach=unpaused,resent,snapshot-done,backoff,done workers=16
+// vcheck: props=C02 reach=unpaused,resent,snapshot-done,backoff,done workers=16
 func VHarness_C17_FlowControl() {
 	o := vRaftOpts{pairs: [][2]uint64{{vS3, 1}, {vS4, 1}}, log: vLogOpts{maxPers: 1, maxWin: 2, noAppliedTo: true, allSaved: true}, roles: []State{leader}, remotes: true}
 	r, c := vRaft(o)
